@@ -660,7 +660,7 @@ pub fn minimise(sc: &C12Scenario, viol: &Violation, refs: &mut RefCache, budget:
     //    program may fail under other seeds than the original: when the scenario is a single
     //    job, every candidate is tried under a dozen hash seeds in one executor.
     let attempt_text = |cand: C12Scenario, best: &mut C12Scenario, refs: &mut RefCache, budget: &mut usize| -> bool {
-        if *budget == 0 {
+        if *budget == 0 || t0.elapsed() > allowance {
             return false;
         }
         if job_count(&cand) != 1 || cand.threads.len() != 1 {
